@@ -552,7 +552,20 @@ func runTrace(cfg traceCfg) (in, impl, goVerdict, key string, stats map[string]i
 			}
 		}()
 	}
-	wg.Wait()
+	waited := make(chan struct{})
+	go func() { wg.Wait(); close(waited) }()
+	select {
+	case <-waited:
+	case <-time.After(60 * time.Second):
+		// searches are blocked for good (leaked slots): report and abandon them
+		t.mu.Lock()
+		ev := append([]string(nil), t.ev...)
+		t.mu.Unlock()
+		sn := s.Snapshot()
+		return fmt.Sprintf("trace %d %d %d %s", sn.SizeI, sn.SizeB, int(next.Load()), join(ev)), fmt.Sprintf("cur=%d.%d", sn.CurI, sn.CurB),
+			fmt.Sprintf("searches still blocked after 60s with %d interactive / %d batch slots held and %d+%d queued", sn.CurI, sn.CurB, sn.WaitI, sn.WaitB),
+			"stuck", map[string]int{}
+	}
 	final := s.Snapshot()
 	n := int(next.Load())
 	in = fmt.Sprintf("trace %d %d %d %s", final.SizeI, final.SizeB, n, join(t.ev))
